@@ -117,7 +117,7 @@ def normalise_graph_states(edges, inits):
     return edges, [cfgadapter.canon_state(s) for s in inits]
 
 
-def run_machine(prop, invs, props, tier, seed, schema="SchemaA", signature_prefix="", focus=None):
+def run_machine(prop, invs, props, tier, seed, schema="SchemaA", signature_prefix="", focus=None, export_depth=None):
     cinco = common.import_repo()
     out = common.Outcome(prop)
     d = tlc.scratch("cinco-cfgm-")
@@ -140,7 +140,7 @@ def run_machine(prop, invs, props, tier, seed, schema="SchemaA", signature_prefi
     NORM_DESC[0] = desc
     # 2a. complete graph of the first level(s)
     cfgx = os.path.join(d, "export.cfg")
-    write_cfg(cfgx, schema, 1 if tier == "quick" else 2, export=True)
+    write_cfg(cfgx, schema, export_depth or (1 if tier == "quick" else 2), export=True)
     exp = tlc.run("MC_Config.tla", cfgx, workers=1, keep=("INIT", "EDGE"))
     edges, inits = normalise_graph_states(exp.printed.get("EDGE", []), exp.printed.get("INIT", []))
     g = replay.Graph(inits, edges)
